@@ -152,4 +152,33 @@ CHECKS.update({
               "guard dominance on exit calls + print-content analysis + reuse of R4a/R5c"),
 })
 
+CHECKS.update({
+    "C11": _c("All 17 `str` range-indexing sites are enumerated from MIR; an abstract evaluation of each index's provenance proves it "
+              "a char boundary of the sliced string (find / char_indices / len / guarded constants / suffix arithmetic) or the "
+              "site is in the reviewed table; u32 arithmetic on request positions and unwrap/expect sites are enumerated. Seven "
+              "sites that could panic were repaired (four fix: commits).",
+              "DESIGN.md section 4 R7, section 5 C11",
+              "Trusted: the boundary domain's soundness as argued in DESIGN; reviewed entries. Undecided: slice bounds, usize "
+              "arithmetic, range order, panics in dependencies, stack exhaustion, wedging, scan isolation.",
+              "abstract interpretation of index provenance (char-boundary domain) over MIR def-use chains"),
+    "C13": _c("Ignore rules must inspect only the path relative to the walk root, the directory filter must be depth-aware, the two "
+              "file-name predicates must agree, the parallel phase must not short-circuit. The relocation defect of the pinned "
+              "tree was repaired (fix: commit).",
+              "DESIGN.md section 4 R10a/b/f, section 5 C13",
+              "Trusted: provenance of path values through strip_prefix; literal extraction. Undecided: exact file set, unreadable files.",
+              "provenance check (strip_prefix of the walk root) + sibling literal-table agreement + who-may-call on rayon consumers"),
+    "C14": _c("Constructors classify alike, plugin marks precede the analysis they affect or enqueue a re-analysis, both import "
+              "walkers follow both edge kinds, no stale snapshot of the plugin map decides propagation, import recursion is "
+              "guarded by a visited set.",
+              "DESIGN.md section 4 R10c-g/R1d, section 5 C14",
+              "Trusted: backward slices of the classification flags; dominators. Undecided: reachability closure, venv layouts, .pth parsing.",
+              "sibling agreement of backward slices + dominance ordering + call-graph reachability"),
+    "C15": _c("Unit discipline only: byte columns must not reach Position.character and the UTF-16 cursor column must not be compared "
+              "with byte spans. The pinned tree has no conversion layer: all 29 flows are recorded known findings (one replay). "
+              "Concrete positions are value facts and are not decided.",
+              "DESIGN.md section 4 R9, section 5 C15",
+              "Trusted: interprocedural origin tracing, unit table of fields. Undecided: every concrete position, duplicates.",
+              "unit (byte vs UTF-16) type-state over interprocedural value origins"),
+})
+
 NOT_APPLICABLE = {p: _UNDER_CONSTRUCTION for p in ["C%02d" % i for i in range(1, 21)]}
